@@ -247,6 +247,10 @@ def unit_arg(kind, ty="int"):
         raise ValueError(kind)
     spec = _scaffold([], core_params=params, extra_funcs=extra, vars_=vars_, eps=eps, root_items=root_items, kargs=kargs,
                      sid=f"U/arg/{kind}/{ty}", key=f"arg|kind={kind}|type={ty}")
+    if any(p.startswith("*") for p, _ in params):
+        # keeping a function with catch-all parameters directly, dds.keep(p, f, ...) at the top level, is refused by dds with an
+        # explanatory NotImplementedError ("use simpler sorts of arguments"): only calls seen in source are in the family
+        spec["entries"].pop("keep_K", None)
     if kind == "default":
         # the default itself is the edit point: K(x, y=<A>)
         for f in spec["funcs"]:
